@@ -195,3 +195,48 @@ def run_node(jobs, tag, shards=None, timeout_ms=5000, wall=3600):
             results[gi] = local.get(li) or {"fatal": "node-missing"}
     cleanup(d)
     return results
+
+
+class NodePool:
+    """Long-lived node processes (start-up is ~2.4 s here) serving session jobs over pipes."""
+
+    def __init__(self, n=8, timeout_ms=5000):
+        self.procs = []
+        if not node_available():
+            return
+        for _ in range(n):
+            cmd = [NODE] + NODE_FLAGS + [os.path.join(VERIF, "oracle", "node_runner.js"), "--server", PRELUDE, "x", str(timeout_ms)]
+            self.procs.append(subprocess.Popen(cmd, stdin=subprocess.PIPE, stdout=subprocess.PIPE, stderr=subprocess.DEVNULL))
+
+    def run(self, jobs):
+        if not self.procs:
+            return [{"fatal": "node-unavailable"} for _ in jobs]
+        import threading
+        results = [None] * len(jobs)
+        n = len(self.procs)
+
+        def work(k):
+            p = self.procs[k]
+            for i in range(k, len(jobs), n):
+                try:
+                    p.stdin.write((json.dumps(jobs[i]) + "\n").encode())
+                    p.stdin.flush()
+                    line = p.stdout.readline()
+                    results[i] = json.loads(line) if line else {"fatal": "node-died"}
+                except Exception as e:  # noqa
+                    results[i] = {"fatal": "node-io:%s" % e}
+        ts = [threading.Thread(target=work, args=(k,)) for k in range(n)]
+        for t in ts:
+            t.start()
+        for t in ts:
+            t.join()
+        return results
+
+    def close(self):
+        for p in self.procs:
+            try:
+                p.stdin.close()
+                p.wait(timeout=5)
+            except Exception:
+                p.kill()
+        self.procs = []
